@@ -4,18 +4,19 @@ import random
 
 ID = "C05"
 LEVEL = "exploration"
-TECHNIQUE = "differential runtime monitoring: the real BlockwiseRequest client against an independent RFC 7959 reference server (harness/refblock.py) on a lossy virtual-time network; oracles = byte comparison of both bodies, arithmetic over the Block1/Block2 options seen on the wire, and error-or-complete-representation for misbehaving servers"
-LEVEL_TEXT = "Every combination of boundary body lengths x server size exponents x client maximum block sizes x negotiation (initial and mid-transfer reduction) is sampled systematically, with loss/duplication of individual block exchanges and each misbehaving-server variant named in the statement; held on every transfer executed."
-LEVEL_NOTE = "Trusted: harness/refblock.py (reference server, independent of aiocoap), simnet, refcodec. A representation change without ETags is undetectable for any client and not generated; payloads <= 1124 bytes are legitimately sent unfragmented at SZX 6."
+TECHNIQUE = "differential runtime monitoring: the real BlockwiseRequest client against an independent RFC 7959 / RFC 8323 section 6 (BERT) reference server (harness/refblock.py) on a lossy virtual-time network; oracles = byte comparison of both bodies, arithmetic over the Block1/Block2 options seen on the wire (SZX 7 counted in 1024-byte units, non-final BERT blocks whole multiples of 1024), and error-or-complete-representation for misbehaving servers"
+LEVEL_TEXT = "Every combination of boundary body lengths x server size exponents 0..7 x client maximum block sizes 0..7 (7 = BERT, with 1..4 blocks per message on either side) x negotiation (initial and mid-transfer reduction, including from BERT to regular blocks) is sampled systematically, with loss/duplication of individual block exchanges and each misbehaving-server variant named in the statement (among them: a later block where block 0 is due, a later block under another response code); held on every transfer executed."
+LEVEL_NOTE = "Trusted: harness/refblock.py (reference server, independent of aiocoap), simnet, refcodec. A representation change without ETags is undetectable for any client and not generated; payloads <= 1124 bytes (k x 1024 + 100 on a BERT transport) are legitimately sent unfragmented at SZX >= 6. BERT runs on the simulated datagram transport whose remotes are given, per case, the block size exponent 7 and maximum payload size the RFC 8323 transports' remotes have; TCP framing itself is C15's matter. When a later block arrives under an unsuccessful code, handing exactly that response to the caller counts as a loud failure as well."
 RULE = (
-    "one case = one request through the default API: (method, request body length, response body length, server SZX, client max SZX, Block1 reduction point, Block2 reduction point, loss profile, misbehaviour). "
+    "one case = one request through the default API: (method, request body length, response body length, server SZX, client max SZX, BERT blocks per message of client and server, Block1 reduction point, Block2 reduction point, loss profile, misbehaviour and its variant). "
     "Non-trivial = at least one body needed more than one block; distinct = distinct parameter tuples with lengths classified relative to the block size (below/at/above a boundary, number of blocks)"
 )
-ASSUMPTIONS = ["default TransportTuning; one-way latency 1 ms", "with random loss a transfer may legitimately fail with a time-out: such failures are counted, not judged"]
-REQUIRED_MONITORS = {"refused_upload": 10, "request_body": 200, "response_body": 200, "block1_options": 150, "block2_options": 150, "misbehaving_server": 60, "negotiation": 60}
+ASSUMPTIONS = ["default TransportTuning; one-way latency 1 ms", "with random loss a transfer may legitimately fail with a time-out: such failures are counted, not judged", "a BERT-capable server never sends more 1024-byte blocks per message than the client's maximum payload size holds"]
+REQUIRED_MONITORS = {"refused_upload": 10, "request_body": 200, "response_body": 200, "block1_options": 150, "block2_options": 150, "misbehaving_server": 60, "negotiation": 60, "client_max_szx7": 120, "bert_upload": 70, "bert_reduction": 50, "bert_download": 20, "first_block_number": 30, "code_change": 20}
 
 LENGTHS = [0, 1, 15, 16, 17, 31, 32, 33, 63, 64, 65, 127, 128, 129, 255, 256, 257, 511, 512, 513, 1023, 1024, 1025, 1124, 1125, 2047, 2048, 2049, 5000, 20000]
 ETAG_MIS = ("etag-changes", "etag-vanishes", "etag-appears")
+# (two more, "b2-first-later-block" and "b2-code-changes", are drawn in widen())
 MISBEHAVIOURS = ["b1-wrong-num", "b1-wrong-num-final", "b1-more-on-final", "b1-continue-on-final", "b2-wrong-num", "b2-short-with-more", "b2-repeat-prev", "b2-restart-0", "b1-observe-in-continue", "etag-changes", "etag-vanishes", "etag-appears"]
 
 
@@ -35,7 +36,7 @@ def body(r, n, tag):
     return bytes(out[:n])
 
 
-def gen(r, k, tier):
+def gen(r, r2, k, tier):
     method = r.choice(["PUT", "POST", "FETCH", "GET", "PUT"])
     szx = r.randrange(0, 7)
     cmax = r.choice([6, 6, 6, 5, 4, 2, 0, r.randrange(0, 7)])
@@ -63,7 +64,64 @@ def gen(r, k, tier):
             fail1 = (r.randrange(0, 4), r.choice([rc_code(4, 13), rc_code(4, 1), rc_code(5, 0), rc_code(4, 8)]), r.random() < 0.5)
         if r.random() < 0.15:
             hint = True  # block size passed in through a Block1 option on the request (the older way) instead of the remote
-    return {"fail1": fail1, "hint": hint, "method": method, "szx": szx, "cmax": cmax, "req_len": req_len, "resp_len": resp_len, "red1": red1, "red2": red2, "loss": loss, "mis": mis, "mis_at": mis_at, "etag": r.choice([True, True, False])}
+    p = {"fail1": fail1, "hint": hint, "method": method, "szx": szx, "cmax": cmax, "req_len": req_len, "resp_len": resp_len, "red1": red1, "red2": red2, "loss": loss, "mis": mis, "mis_at": mis_at, "etag": r.choice([True, True, False])}
+    return widen(p, r2, tier)
+
+
+NEW_MIS = ("b2-first-later-block", "b2-code-changes")
+
+
+def unit(szx):
+    """bytes one step of NUM stands for (RFC 7959 section 2.2; RFC 8323 section 6: SZX 7 counts like SZX 6)"""
+    return 1024 if szx == 7 else 1 << (szx + 4)
+
+
+def widen(p, r2, tier):
+    """Further dimensions, drawn from a generator of their own so that the older dimensions of a case stay what they were."""
+    p.update(tp=None, srv_k=1, mis_arg=None)
+    budget = 80 if tier == "quick" else 400
+    if r2.random() < 0.24:
+        # a transport on which BERT (RFC 8323 section 6) is available: the client's remotes have maximum block size
+        # exponent 7 and a maximum payload of tp x 1024 (+100 slack) bytes; the server understands BERT and either
+        # uses it itself (szx 7, srv_k x 1024 bytes per response) or prefers regular blocks (szx <= 6)
+        tp = p["tp"] = r2.choice([1, 1, 2, 3, 4])
+        p["srv_k"] = r2.randrange(1, tp + 1)
+        p["cmax"] = r2.choice([7, 7, 7, 7, p["cmax"]])
+        p["szx"] = r2.choice([7, 7, p["szx"], r2.randrange(0, 7), r2.choice([4, 5, 6])])
+        red = lambda first: (r2.randrange(0 if first else 1, 3), r2.choice([6, 5, 4, r2.randrange(0, 7), r2.randrange(2, 8)]))
+        p["red1"] = r2.choice([None, None, red(True), red(True)])
+        p["red2"] = r2.choice([None, None, red(False)])
+        base = tp * 1024
+        lengths = [base - 1, base, base + 1, base + 100, base + 101, base + 1023, base + 1024, base + 1025, 2 * base, 2 * base + 1, 2 * base + 101, 3 * base + 512, 4 * base + 100, 4 * base + 101, 5000, 9000, 20000, r2.choice(LENGTHS)]
+        if p["method"] != "GET":
+            p["req_len"] = r2.choice(lengths)
+        p["resp_len"] = r2.choice(lengths)
+        # keep the number of exchanges bounded: what lies beyond the first BERT block may go in the smallest negotiated size
+        low1 = min([p["szx"], p["cmax"], 6] + ([p["red1"][1]] if p["red1"] else []))
+        low2 = min([p["szx"], p["cmax"], 6] + ([p["red2"][1]] if p["red2"] else []))
+        p["req_len"] = min(p["req_len"], base + 100 + unit(low1) * budget)
+        p["resp_len"] = min(p["resp_len"], base + 100 + unit(low2) * budget)
+    if r2.random() < 0.11:
+        p["mis"] = r2.choice(NEW_MIS)
+        p["loss"] = None
+        p["fail1"] = None
+        if p["mis"] == "b2-first-later-block":
+            # block 0 is due, a later one comes (the mis_at + 1 st, or the last one)
+            p["mis_at"] = r2.randrange(0, 3)
+            multi = r2.random() < 0.75
+        else:
+            p["mis_at"] = r2.randrange(1, 4)
+            p["mis_arg"] = {"code": r2.choice(["4.04", "4.04", "5.00", "5.03", "4.00", "alt"]), "payload": r2.choice(["diag", "diag", "chunk"]), "etag": r2.random() < 0.4}
+            if p["mis_arg"]["code"] == "alt":
+                p["mis_arg"]["payload"] = "chunk"
+            multi = True
+        if multi:
+            # a representation of several blocks (in the size the server will use)
+            size = unit(min(p["szx"], 6)) * (p["srv_k"] if p["szx"] == 7 else 1)
+            p["resp_len"] = size * r2.randrange(1, 5) + r2.choice([1, size // 2, size - 1, size])
+            if p["red2"] is not None:
+                p["resp_len"] = min(p["resp_len"], size + unit(min(p["red2"][1], 6)) * budget)
+    return p
 
 
 def rc_code(cls, detail):
@@ -77,6 +135,34 @@ def lenclass(n, size):
     return "%s%s" % (min(q, 5), "" if rem == 0 else "+")
 
 
+class bert_transport:
+    """For the duration of one case, the simulated datagram transport's remotes have what the remotes of the RFC 8323
+    transports have (rfc8323common: maximum_block_size_exp 7, maximum_payload_size k x 1024 + 100): class attributes
+    set on entry and restored on exit, so that every remote object of the case (the resolved request remote and the
+    remotes of the responses alike) carries them, as one connection object does on those transports."""
+
+    def __init__(self, k):
+        self.k = k
+
+    def __enter__(self):
+        if self.k is None:
+            return
+        from aiocoap.transports.udp6 import UDP6EndpointAddress as A
+
+        self.saved = A.__dict__["maximum_block_size_exp"]
+        assert "maximum_payload_size" not in A.__dict__
+        A.maximum_block_size_exp = 7
+        A.maximum_payload_size = self.k * 1024 + 100
+
+    def __exit__(self, *a):
+        if self.k is None:
+            return
+        from aiocoap.transports.udp6 import UDP6EndpointAddress as A
+
+        A.maximum_block_size_exp = self.saved
+        del A.maximum_payload_size
+
+
 def run_case(p, seed, rep, case):
     from harness import scenario, simnet, refcodec as rc, refblock
     import asyncio
@@ -87,18 +173,28 @@ def run_case(p, seed, rep, case):
     req_body = body(r, p["req_len"], b"Q")
     rep_body = body(r, p["resp_len"], b"R")
 
+    mis_arg = None
+    if p.get("mis_arg"):
+        first_code = rc_code(2, 5) if p["method"] in ("GET", "FETCH") else rc_code(2, 4)
+        named = {"4.04": rc_code(4, 4), "5.00": rc_code(5, 0), "5.03": rc_code(5, 3), "4.00": rc_code(4, 0), "alt": rc_code(2, 4) if first_code == rc_code(2, 5) else rc_code(2, 5)}
+        mis_arg = dict(p["mis_arg"], code=named[p["mis_arg"]["code"]])
+
     async def main(loop):
         pol = simnet.RandomPolicy(random.Random(seed + 1), **p["loss"]) if p["loss"] else simnet.Policy()
         net = simnet.SimNet(loop, pol)
-        srv = refblock.BlockServer(net, "10.0.0.1", 5683, szx=p["szx"], representation=rep_body, etag=b"" if p["mis"] == "etag-appears" else b"v1" if (p["etag"] or p["mis"] in ETAG_MIS) else b"", reduce_block1_at=p["red1"], reduce_block2_at=p["red2"], misbehave=p["mis"], misbehave_at=p["mis_at"], fail_block1_at=p.get("fail1"))
+        srv = refblock.BlockServer(net, "10.0.0.1", 5683, szx=p["szx"], representation=rep_body, etag=b"" if p["mis"] == "etag-appears" else b"v1" if (p["etag"] or p["mis"] in ETAG_MIS) else b"", reduce_block1_at=p["red1"], reduce_block2_at=p["red2"], misbehave=p["mis"], misbehave_at=p["mis_at"], fail_block1_at=p.get("fail1"), peer_bert=p.get("tp") is not None, bert_blocks=p.get("srv_k", 1), misbehave_arg=mis_arg)
         cli = await simnet.make_context(net, "10.0.0.2", 40001, None, server=False)
         m = aiocoap.Message(code=getattr(aiocoap, p["method"]), uri="coap://10.0.0.1/res", payload=req_body)
         if p.get("hint"):
             from aiocoap.optiontypes import BlockOption
 
             m.opt.block1 = BlockOption.BlockwiseTuple(0, False, p["cmax"])
+            if p.get("tp"):
+                m.remote.maximum_block_size_exp = 7
         else:
             m.remote.maximum_block_size_exp = p["cmax"]
+        # (7 is nothing an application would set: it is what the remotes of a BERT-capable transport come with; the
+        # datagram transport takes the minimum of its own and the unresolved remote's value, so it is passed in here)
         import warnings
 
         with warnings.catch_warnings():
@@ -114,7 +210,8 @@ def run_case(p, seed, rep, case):
         box.update(net=net, srv=srv, out=out)
         return True
 
-    res = scenario.run(main, seed, horizon=1e6)
+    with bert_transport(p.get("tp")):
+        res = scenario.run(main, seed, horizon=1e6)
     if not res.ok:
         if res.horizon:
             rep.inconc("horizon")
@@ -137,33 +234,54 @@ def judge(p, box, req_body, rep_body, res, rep, case):
     eff1 = min(p["szx"], p["cmax"])
     # ---- wire arithmetic: Block1 ----
     b1reqs = [s for s in seen if s["b1"] is not None]
+    # a non-final BERT request block that the server acknowledged with a regular size: the rest of the body continues
+    # at the same byte offset in the smaller unit. What goes wrong in such a transfer is filed under one heading
+    bert_reduced = any(s["b1"][2] == 7 and s["b1"][1] and s["ack1"] is not None and s["ack1"][2] < 7 for s in b1reqs)
+    ctx = "bert-reduction/" if bert_reduced else ""
     if b1reqs:
         rep.monitor("block1_options")
+        if any(s["b1"][2] == 7 and s["b1"][1] for s in b1reqs):
+            rep.monitor("bert_upload")
+        if bert_reduced:
+            rep.monitor("bert_reduction")
         offset = 0
         last_szx = None
         for s in b1reqs:
             num, more, szx = s["b1"]
-            size = 1 << (szx + 4)
+            size = unit(szx)
             if num == 0 and offset != 0 and s["plen"] and offset >= 0:
                 offset = 0  # a restarted transfer (not expected from this client)
             if num * size != offset:
-                rep.violation("block1/num-times-size-not-offset", "a Block1 request's NUM x size does not equal the number of body bytes sent before it (gap or overlap)", wit(at=s["b1"], offset=offset), case)
+                rep.violation(ctx + "block1/num-times-size-not-offset", "a Block1 request's NUM x size does not equal the number of body bytes sent before it (gap or overlap)", wit(at=s["b1"], offset=offset), case)
                 break
             if last_szx is not None and szx > last_szx:
-                rep.violation("block1/szx-grew", "the client's block size exponent grew during a transfer", wit(at=s["b1"]), case)
+                rep.violation(ctx + "block1/szx-grew", "the client's block size exponent grew during a transfer", wit(at=s["b1"]), case)
                 break
-            if more and s["plen"] != size:
-                rep.violation("block1/nonfinal-block-not-full", "a non-final Block1 request does not carry exactly one block of payload", wit(at=s["b1"], plen=s["plen"]), case)
+            if szx > (7 if p.get("tp") else 6):
+                rep.violation(ctx + "block1/reserved-szx", "a Block1 request with size exponent 7 on a transport without BERT", wit(at=s["b1"]), case)
                 break
-            if s["plen"] > size:
-                rep.violation("block1/payload-larger-than-block", "a Block1 request carries more payload than its block size", wit(at=s["b1"], plen=s["plen"]), case)
-                break
+            if szx == 7:
+                # RFC 8323 section 6: non-final BERT blocks are whole 1024-byte blocks (at least one), and no message
+                # carries more than the client's own maximum payload
+                if more and (s["plen"] == 0 or s["plen"] % 1024 != 0):
+                    rep.violation(ctx + "block1/nonfinal-block-not-full", "a non-final BERT Block1 request does not carry a positive multiple of 1024 bytes", wit(at=s["b1"], plen=s["plen"]), case)
+                    break
+                if s["plen"] > p["tp"] * 1024 + 100:
+                    rep.violation(ctx + "block1/payload-larger-than-block", "a BERT Block1 request carries more payload than the client's maximum payload size", wit(at=s["b1"], plen=s["plen"]), case)
+                    break
+            else:
+                if more and s["plen"] != size:
+                    rep.violation(ctx + "block1/nonfinal-block-not-full", "a non-final Block1 request does not carry exactly one block of payload", wit(at=s["b1"], plen=s["plen"]), case)
+                    break
+                if s["plen"] > size:
+                    rep.violation(ctx + "block1/payload-larger-than-block", "a Block1 request carries more payload than its block size", wit(at=s["b1"], plen=s["plen"]), case)
+                    break
             final = offset + s["plen"] >= len(req_body)
             if more == final and not (p["mis"] or "").startswith("b1"):
-                rep.violation("block1/more-flag-wrong", "the more-flag is not set exactly on the non-final blocks", wit(at=s["b1"], offset=offset, total=len(req_body)), case)
+                rep.violation(ctx + "block1/more-flag-wrong", "the more-flag is not set exactly on the non-final blocks", wit(at=s["b1"], offset=offset, total=len(req_body)), case)
                 break
             if s["payload"] != req_body[offset : offset + s["plen"]]:
-                rep.violation("block1/payload-not-the-slice", "a Block1 request's payload is not the body slice at its offset", wit(at=s["b1"], offset=offset), case)
+                rep.violation(ctx + "block1/payload-not-the-slice", "a Block1 request's payload is not the body slice at its offset", wit(at=s["b1"], offset=offset), case)
                 break
             offset += s["plen"]
             last_szx = szx
@@ -182,13 +300,17 @@ def judge(p, box, req_body, rep_body, res, rep, case):
                 rep.violation("block2/szx-grew", "the client's Block2 size exponent grew during a transfer", wit(at=s["b2"]), case)
                 break
             # a size passed in through the request's Block1 option is a hint for the request body only
-            if szx > (6 if p.get("hint") else p["cmax"]):
+            if szx > ((7 if p.get("tp") else 6) if p.get("hint") else p["cmax"]):
                 rep.violation("block2/exceeds-client-maximum", "the client asked for blocks larger than its own maximum block size", wit(at=s["b2"]), case)
                 break
             last = szx
         # contiguity of what was served to a conforming flow is visible in the final body comparison
         if p["red2"] is not None or (p["cmax"] < p["szx"] and not p.get("hint")):
             rep.monitor("negotiation")
+    if p.get("tp") and p["cmax"] == 7:
+        rep.monitor("client_max_szx7")
+    if srv.bert_served > 1:
+        rep.monitor("bert_download")
     # ---- outcome ----
     kind = out[0]
     if p["mis"] == "b1-observe-in-continue":
@@ -200,13 +322,20 @@ def judge(p, box, req_body, rep_body, res, rep, case):
             if not isinstance(out[1], error.Error):
                 rep.violation("out-of-place-option-wrong-exception/" + type(out[1]).__name__, "an Observe option on a 2.31 Continue made the request fail with an exception outside the library's error hierarchy", wit(), case)
         else:
-            judge_conforming(p, srv, out, req_body, rep_body, lossy, rep, case, wit)
+            judge_conforming(p, srv, out, req_body, rep_body, lossy, rep, case, wit, ctx)
     elif p["mis"]:
         # did the misbehaviour actually manifest on the wire?
         manifested = misbehaviour_manifested(p, srv, req_body, rep_body)
         if manifested:
             rep.monitor("misbehaving_server")
-            if kind == "response":
+            if p["mis"] in NEW_MIS:
+                rep.monitor({"b2-first-later-block": "first_block_number", "b2-code-changes": "code_change"}[p["mis"]])
+            passed_on = p["mis"] == "b2-code-changes" and kind == "response" and (srv.changed_first[0] >> 5) != 2 and (out[1], out[2]) == srv.changed_first
+            if passed_on:
+                # the server's unsuccessful response handed to the caller as it is (its code, its payload and nothing
+                # else) is a loud failure too: nothing of the earlier blocks is passed off under it
+                rep.count("error_response_passed_on")
+            elif kind == "response":
                 # statement: ends with an error and never yields a truncated, duplicated or mixed body
                 v2 = bytes((x + 1) & 0xFF for x in rep_body)
                 rep.violation("misbehaving-server-not-an-error/%s%s" % (p["mis"], "" if out[2] in (rep_body, v2) else "/corrupt-body"), "the server violated the sequencing rules / changed the representation, but the request ended with a response instead of an error", wit(returned_len=len(out[2]), complete=out[2] in (rep_body, v2)), case)
@@ -214,7 +343,7 @@ def judge(p, box, req_body, rep_body, res, rep, case):
                 rep.violation("misbehaving-server-wrong-exception/" + type(out[1]).__name__, "the failure is not a library error", wit(), case)
         else:
             rep.count("misbehaviour_not_manifested")
-            judge_conforming(p, srv, out, req_body, rep_body, lossy, rep, case, wit)
+            judge_conforming(p, srv, out, req_body, rep_body, lossy, rep, case, wit, ctx)
     elif p.get("fail1") and srv.failed_block1:
         # the server refused one block of the upload: the caller must see that refusal (as a response with the
         # server's code, or as a library error), never a success, and the server must not have been handed a body
@@ -224,11 +353,11 @@ def judge(p, box, req_body, rep_body, res, rep, case):
         elif kind == "exception" and not isinstance(out[1], error.Error):
             rep.violation("refused-upload-wrong-exception/" + type(out[1]).__name__, "the failure is not a library error", wit(), case)
     else:
-        judge_conforming(p, srv, out, req_body, rep_body, lossy, rep, case, wit)
+        judge_conforming(p, srv, out, req_body, rep_body, lossy, rep, case, wit, ctx)
     if res.loop_exceptions:
         rep.violation("loop-exception/" + str(res.loop_exceptions[0].get("exc_type")), "an exception reached the event loop", wit(loop=res.loop_exceptions[:2]), case)
-    size1 = 1 << (min(p["szx"], p["cmax"]) + 4)
-    sig = (p["method"], p["szx"], p["cmax"], lenclass(p["req_len"], size1), lenclass(p["resp_len"], size1), p["red1"] is not None, p["red2"] is not None, p["loss"] is not None, p["mis"], p["etag"], bool(p.get("fail1")), bool(p.get("hint")))
+    size1 = 1 << (min(p["szx"], p["cmax"], 6) + 4)
+    sig = (p.get("tp"), p.get("srv_k"), (p.get("mis_arg") or {}).get("code"), (p.get("mis_arg") or {}).get("payload"), p["method"], p["szx"], p["cmax"], lenclass(p["req_len"], size1), lenclass(p["resp_len"], size1), p["red1"] is not None, p["red2"] is not None, p["loss"] is not None, p["mis"], p["etag"], bool(p.get("fail1")), bool(p.get("hint")))
     rep.case(sig, nontrivial=len(b1reqs) > 1 or len(b2reqs) > 0)
 
 
@@ -248,29 +377,33 @@ def misbehaviour_manifested(p, srv, req_body, rep_body):
         return len(srv.served) > at
     if mis in ("b2-repeat-prev", "b2-restart-0"):
         return getattr(srv, "repeated_earlier", 0) > 0
+    if mis == "b2-first-later-block":
+        return srv.first_later > 0
+    if mis == "b2-code-changes":
+        return srv.code_changed > 0
     if mis in ETAG_MIS:
         # the representation changed between the first block and a later one
         return at >= 1 and len(srv.served) > at and srv.served[0][0] == 0
     return False
 
 
-def judge_conforming(p, srv, out, req_body, rep_body, lossy, rep, case, wit):
+def judge_conforming(p, srv, out, req_body, rep_body, lossy, rep, case, wit, ctx=""):
     from aiocoap import error
 
     if out[0] == "exception":
         if lossy and isinstance(out[1], error.Error):
             rep.count("failed_under_loss")
             return
-        rep.violation("conforming-transfer-failed/" + type(out[1]).__name__, "a transfer with a conforming server and no message loss ended with an error", wit(tb=rep.exception_witness(out[1])), case)
+        rep.violation(ctx + "conforming-transfer-failed/" + type(out[1]).__name__, "a transfer with a conforming server and no message loss ended with an error", wit(tb=rep.exception_witness(out[1])), case)
         return
     rep.monitor("response_body")
     if out[2] != rep_body:
-        rep.violation("response-body-differs", "the body returned to the caller is not byte-identical to the server's representation", wit(returned_len=len(out[2]), want_len=len(rep_body), first_diff=first_diff(out[2], rep_body)), case)
+        rep.violation(ctx + "response-body-differs", "the body returned to the caller is not byte-identical to the server's representation", wit(returned_len=len(out[2]), want_len=len(rep_body), first_diff=first_diff(out[2], rep_body)), case)
     if p["method"] != "GET":
         rep.monitor("request_body")
         bodies = [b for _, b in srv.completed_bodies]
         if not bodies or bodies[-1] != req_body:
-            rep.violation("request-body-differs", "the body the server reassembled is not byte-identical to the payload handed to the request API", wit(reassembled=[len(b) for b in bodies], want_len=len(req_body)), case)
+            rep.violation(ctx + "request-body-differs", "the body the server reassembled is not byte-identical to the payload handed to the request API", wit(reassembled=[len(b) for b in bodies], want_len=len(req_body)), case)
 
 
 def first_diff(a, b):
@@ -287,8 +420,9 @@ def run_shard(shard, rep, only=None):
     import aiocoap  # noqa
 
     r = random.Random(shard["seed"])
+    r2 = random.Random(shard["seed"] * 7919 + 5)
     for k in range(shard["n"]):
-        p = gen(r, k, shard["tier"])
+        p = gen(r, r2, k, shard["tier"])
         case = ["case", k]
         if only is not None and only != case:
             continue
